@@ -179,6 +179,24 @@ class Fn:
                     out.setdefault(h, set()).update(body)
         return [(h, frozenset(b)) for h, b in sorted(out.items())]
 
+    def controlling_switches(self, bb, limit=6):
+        """switch blocks D (nearest first) that dominate bb and from which bb is reachable through some but not all successors"""
+        out = []
+        x = bb
+        steps = 0
+        while x not in (-1, None) and steps < 200 and len(out) < limit:
+            d = self.idom[x]
+            if d is None or d < 0 or d == x:
+                break
+            t = self.blocks[d]["t"]
+            if t["k"] == "switch":
+                reach = [s for s in self.succ[d] if s == bb or self.can_reach(s, bb) or s == bb]
+                if 0 < len(set(reach)) < len(set(self.succ[d])):
+                    out.append(d)
+            x = d
+            steps += 1
+        return out
+
     def innermost_loops(self):
         ls = self.loops()
         heads = {h for h, _ in ls}
